@@ -104,13 +104,18 @@ structure SQ where
 deriving DecidableEq, Repr
 
 /-- a reported index (`*meta.IndexIdentifier`) + ghost: the duration the test used, whether
-that duration was written by this run's index refresh. -/
+that duration was written by this run's index refresh, the clock reading of the test, whether the
+entry came from the not-loaded map, and (sid, end, duration) of the shard objects that worked
+with the partition's builder for this index when the test ran. -/
 structure IQ where
   iid : Nat
   igid : Nat
   endT : Int
   dUsed : Int
   fresh : Bool
+  nowD : Int
+  fromNil : Bool
+  held : List (Nat × Int × Int)
 deriving DecidableEq, Repr
 
 inductive Phase
@@ -127,9 +132,10 @@ inductive EvKind
   | delShard | delIndex | markIG | pruneIx
 deriving DecidableEq, Repr
 
-/-- ghost record of a destructive action. `users`: (sid, end) of the shard objects of the store
-that hold index `id` at that moment (for index events). `refD`: what the index side of the last
-refresh got from meta. -/
+/-- ghost record of a destructive action. `now`: the clock reading of the expiry test that
+decided it (the clock may have been set back since). `users`: (sid, end) of the shard objects of
+the store that hold index `id` at the moment of the action (for index events). `refD`: what the
+index side of the last refresh got from meta. `fromNil`, `held`: as in `IQ`. -/
 structure Ev where
   kind : EvKind
   id : Nat
@@ -139,6 +145,8 @@ structure Ev where
   fresh : Bool
   refD : Int
   users : List (Nat × Int)
+  fromNil : Bool
+  held : List (Nat × Int × Int)
 deriving DecidableEq, Repr
 
 structure St where
@@ -225,13 +233,26 @@ def expiredS (now : Int) (shards : List XShard) (nm : List SInfo) : List SQ :=
   l ++ (nm.filter fun i => !(l.any fun q => q.sid == i.sid) && nilShardIsExpired now i.dur i.endT).map
     fun i => (⟨i.sid, i.gid, i.endT, i.dur⟩ : SQ)
 
-/-- `ExpiredIndexes`: loaded builders by `Expired()`, then the not-loaded entries
-(`containIdxid` skips ids already reported) by `nilShardIsExpired`. -/
-def expiredI (now : Int) (idxs : List XIndex) (nm : List IInfo) : List IQ :=
-  let l := (idxs.filter fun x => ixExpired now x.b).map
-    fun x => (⟨x.iid, x.igid, x.b.endTime, x.b.duration, x.fresh⟩ : IQ)
+/-- the shard objects that work with the partition's builder for index `iid`
+(`sh.GetIndexBuilder() == iBuilder`: not closing, and the builder they hold is the one in the map). -/
+def holders (shards : List XShard) (iid : Nat) : List XShard :=
+  shards.filter fun s => s.idx && s.own && s.iid == iid
+
+/-- `indexHeldByLiveShardNoLock`: some holder has not expired yet. -/
+def heldLive (now : Int) (shards : List XShard) (iid : Nat) : Bool :=
+  (holders shards iid).any fun s => !shardIsExpired now s.dur s.endT
+
+def heldOf (shards : List XShard) (iid : Nat) : List (Nat × Int × Int) :=
+  (holders shards iid).map fun s => (s.sid, s.endT, s.dur)
+
+/-- `ExpiredIndexes`: loaded builders by `Expired()` unless a shard that has not expired still
+works with the builder, then the not-loaded entries (`containIdxid` skips ids already reported) by
+`nilShardIsExpired`. -/
+def expiredI (now : Int) (shards : List XShard) (idxs : List XIndex) (nm : List IInfo) : List IQ :=
+  let l := (idxs.filter fun x => ixExpired now x.b && !heldLive now shards x.iid).map
+    fun x => (⟨x.iid, x.igid, x.b.endTime, x.b.duration, x.fresh, now, false, heldOf shards x.iid⟩ : IQ)
   l ++ (nm.filter fun i => !(l.any fun q => q.iid == i.iid) && nilShardIsExpired now i.dur i.endT).map
-    fun i => (⟨i.iid, i.igid, i.endT, i.dur, true⟩ : IQ)
+    fun i => (⟨i.iid, i.igid, i.endT, i.dur, true, now, true, heldOf shards i.iid⟩ : IQ)
 
 /-- `ExpiredCacheIndexes` -/
 def expiredCache (now : Int) (idxs : List XIndex) : List Nat :=
@@ -285,7 +306,7 @@ def procS (o : Outcome) (q : SQ) (σ : St) : St :=
   let gone := r = .ok ∨ r = .closedErr
   { σ with cs := if o.pruneOk then pruneS q.sid cs1 else cs1,
            shards := if gone then σ.shards.filter (fun s => s.sid != q.sid) else σ.shards,
-           log := (if gone then [(⟨.delShard, q.sid, q.endT, q.dUsed, σ.clock, true, σ.refS, []⟩ : Ev)] else []) ++ σ.log }
+           log := (if gone then [(⟨.delShard, q.sid, q.endT, q.dUsed, σ.clock, true, σ.refS, [], false, []⟩ : Ev)] else []) ++ σ.log }
 
 /-- one iteration of the index loop. -/
 def procI (o : Outcome) (q : IQ) (σ : St) : St :=
@@ -293,7 +314,7 @@ def procI (o : Outcome) (q : IQ) (σ : St) : St :=
   let r := delIRes o q.iid σ.idxs
   let gone := r = .ok
   let users := usersOf q.iid σ.shards
-  let ev (k : EvKind) : Ev := ⟨k, q.iid, q.endT, q.dUsed, σ.clock, q.fresh, σ.refI, users⟩
+  let ev (k : EvKind) : Ev := ⟨k, q.iid, q.endT, q.dUsed, q.nowD, q.fresh, σ.refI, users, q.fromNil, q.held⟩
   { σ with ci := if o.pruneOk then pruneI q.iid ci1 else ci1,
            idxs := if gone then σ.idxs.filter (fun x => x.iid != q.iid) else σ.idxs,
            shards := if gone then σ.shards.map (fun s => if s.iid == q.iid then { s with own := false } else s) else σ.shards,
@@ -301,7 +322,7 @@ def procI (o : Outcome) (q : IQ) (σ : St) : St :=
                   (if o.pruneOk then [ev .pruneIx] else []) ++ σ.log }
 
 inductive Op
-  | tick (dt : Int)
+  | tick (dt : Int)             -- time passes (dt ≥ 0) or the wall clock is set back (dt < 0)
   | alter (d : Int)
   | load (sid : Nat)
   | close (sid : Nat)
@@ -344,7 +365,7 @@ def refreshI (σ : St) : St :=
            refI := σ.metaDur, seen := σ.metaDur :: σ.seen }
 
 def step (σ : St) : Op → St
-  | .tick dt => if 0 ≤ dt then { σ with clock := σ.clock + dt } else σ
+  | .tick dt => { σ with clock := σ.clock + dt }   -- dt < 0: the wall clock is set back
   | .alter d => { σ with metaDur := d }
   | .load sid => loadShard sid σ
   | .close sid => { σ with shards := σ.shards.map fun s => if s.sid == sid then { s with idx := false } else s }
@@ -376,7 +397,7 @@ def step (σ : St) : Op → St
   | .collectI =>
     match σ.phase with
     | .shardsDone =>
-      let q := sortI (expiredI σ.clock σ.idxs σ.nilI)
+      let q := sortI (expiredI σ.clock σ.shards σ.idxs σ.nilI)
       { σ with iq := q, phase := if q.isEmpty then .indexesDone else .indexes }
     | _ => σ
   | .procI o =>
